@@ -909,9 +909,12 @@ fn lattice() -> Vec<(u8, u8, u8)> {
 
 fn setup_third_party() {
     // crossterm honours NO_COLOR through a memoised global; yansi has a global switch
-    std::env::remove_var("NO_COLOR");
-    crossterm::style::Colored::set_ansi_color_disabled(false);
-    yansi::enable();
+    static ONCE: std::sync::Once = std::sync::Once::new();
+    ONCE.call_once(|| {
+        std::env::remove_var("NO_COLOR");
+        crossterm::style::Colored::set_ansi_color_disabled(false);
+        yansi::enable();
+    });
 }
 
 type Key = (usize, String, Sty);
